@@ -33,12 +33,17 @@ def gen(rng, tier):
     n = 500 if tier == "quick" else 15000
     for t in range(n):
         ns, nv = rng.randint(2, 12), rng.randint(1, 5)
-        repeats = rng.random() < 0.2
+        repeats = rng.random() < 0.25
+        big = rng.random() < 0.4
         data = []
         for i in range(ns):
             row = []
             for j in range(nv):
-                row.append([rng.randint(0, 9), rng.randint(0, 9)] if repeats else [rng.randint(0, 1), rng.randint(0, 1)])
+                if repeats and big:
+                    # long tandem repeats: copy numbers up to the largest storable allele value (253), dosages up to 506
+                    row.append([rng.choice([0, 3, 127, 128, 200, 253]), rng.choice([1, 128, 129, 250, 253])])
+                else:
+                    row.append([rng.randint(0, 9), rng.randint(0, 9)] if repeats else [rng.randint(0, 1), rng.randint(0, 1)])
             data.append(row)
         if rng.random() < 0.25:
             j = rng.randrange(nv)
@@ -285,7 +290,7 @@ CHECK = Check(
             setup=setup,
             teardown=teardown,
             nontrivial=lambda c, o: C.jdump(c),
-            rule="seeded random dosage matrices (2-12 samples x 1-5 variables; SNP dosages or repeat counts; constant columns), effect lists in an order different from the genotype order, betas incl. 0, negative and sum beta^2 >, =, < 1, all combinations of {heritability none/1/0.5/0.25/0.8, environment none/0/0.5/1/2, normalize on/off, prevalence none/0/.../0.99}, 1-3 replications; PhenoSimulator.rng (public attribute) is replaced by a recording generator with a known tape; the recorded scale^2 is compared with the exact rational Lean noiseVar, the returned vector with sum beta*Z + eps (1e-9), case counts with floor(K n)",
+            rule="seeded random dosage matrices (2-12 samples x 1-5 variables; SNP dosages or repeat counts (short, and long ones whose two copy numbers add up beyond 255); constant columns), effect lists in an order different from the genotype order, betas incl. 0, negative and sum beta^2 >, =, < 1, all combinations of {heritability none/1/0.5/0.25/0.8, environment none/0/0.5/1/2, normalize on/off, prevalence none/0/.../0.99}, 1-3 replications; PhenoSimulator.rng (public attribute) is replaced by a recording generator with a known tape; the recorded scale^2 is compared with the exact rational Lean noiseVar, the returned vector with sum beta*Z + eps (1e-9), case counts with floor(K n)",
         ),
         Section(
             name="simulate_pt_files",
